@@ -27,6 +27,12 @@ import Mathlib.Data.List.Basic
       `C03_nonneg_counterexample`: an accepted step that ends with a NEGATIVE speed.  (statement FALSE)
   §4  friction brake bounds and the inductive brake-force invariant.
   §5  `walkCond` exit condition.
+  §5b the loop of `walk_internal` before and after the liveness repair c76dec1 (`walkLoopOld` / `walkLoop`, generic in
+      `step`): the old loop never exits from a state that a step leaves unchanged for the purposes of `step` and the
+      condition (`C03_walk_old_diverges` — the defect), the new loop reports it after one step
+      (`C03_walk_new_reports_stuck`), exits exactly where the old one does unless the check fired
+      (`C03_walk_new_refines_old`, `C03_walk_sound_check_keeps_exits`), only where the condition is false
+      (`C03_walk_exit_new`, `C03_slWalk_exit`), and the check never fires on an exit state (`C03_stuck_implies_cond`).
   §6  power bounds of an accepted step.
   §7  the position advances by the trapezoid rule; one accepted step re-establishes the `idx_curr`
       precondition of `calc_speeds` for the next one.
@@ -960,6 +966,426 @@ example : walkCond (1524/5 : ℚ) 10000 ⟨Ex.resOf 9900 0 0, Ex.kinQ⟩ = false
     walkCond (1524/5 : ℚ) 10000 ⟨Ex.resOf 10001 5 0, Ex.kinQ⟩ = false := by
   decide +kernel
 
+/-! ## §5b  The loop of `walk_internal` before and after the liveness repair (fix c76dec1)
+
+  `walkLoopOld step cond` is `while cond(state) { self.step()?; }`, `walkLoop step cond stuck` the repaired loop that
+  ends with `Err` ("stopped-short") as soon as a step produced a stuck pair (state before, state after); both take
+  fuel = the number of `step()` calls allowed, `.ok none` = fuel exhausted with the condition still true.  Everything
+  here is GENERIC in the state type, `step`, `cond`, `stuck`; the instances `slWalk` / `slWalkOld` use the model's
+  `walkCond` / `walkStuck`, which `Proofs/TrainKernels.lean` proves equal to what the Rust text says. -/
+
+section WalkLoop
+variable {S : Type}
+
+theorem walkLoop_zero (step : S → Res S) (cond : S → Bool) (stuck : S → S → Bool) (s : S) :
+    walkLoop step cond stuck 0 s = if cond s then .ok none else .ok (some s) := rfl
+
+theorem walkLoop_succ (step : S → Res S) (cond : S → Bool) (stuck : S → S → Bool) (n : Nat) (s : S) :
+    walkLoop step cond stuck (n + 1) s =
+      if cond s then
+        match step s with
+        | .ok s' => if stuck s s' then .err "stopped-short" else walkLoop step cond stuck n s'
+        | .err e => .err e
+        | .panic e => .panic e
+      else .ok (some s) := rfl
+
+theorem walkLoopOld_zero (step : S → Res S) (cond : S → Bool) (s : S) :
+    walkLoopOld step cond 0 s = if cond s then .ok none else .ok (some s) := rfl
+
+theorem walkLoopOld_succ (step : S → Res S) (cond : S → Bool) (n : Nat) (s : S) :
+    walkLoopOld step cond (n + 1) s =
+      if cond s then
+        match step s with
+        | .ok s' => walkLoopOld step cond n s'
+        | .err e => .err e
+        | .panic e => .panic e
+      else .ok (some s) := rfl
+
+/-! the five ways an iteration can go, as rewriting lemmas -/
+
+theorem walkLoop_exit {step : S → Res S} {cond : S → Bool} {stuck : S → S → Bool} {s : S} (hc : cond s = false)
+    (n : Nat) : walkLoop step cond stuck n s = .ok (some s) := by
+  cases n with
+  | zero => rw [walkLoop_zero, hc]; rfl
+  | succ n => rw [walkLoop_succ, hc]; rfl
+
+theorem walkLoop_step {step : S → Res S} {cond : S → Bool} {stuck : S → S → Bool} {s s' : S} (hc : cond s = true)
+    (hs : step s = .ok s') (hk : stuck s s' = false) (n : Nat) :
+    walkLoop step cond stuck (n + 1) s = walkLoop step cond stuck n s' := by
+  rw [walkLoop_succ, hc, hs]; simp only [hk, if_true]; rfl
+
+theorem walkLoop_stuck {step : S → Res S} {cond : S → Bool} {stuck : S → S → Bool} {s s' : S} (hc : cond s = true)
+    (hs : step s = .ok s') (hk : stuck s s' = true) (n : Nat) :
+    walkLoop step cond stuck (n + 1) s = .err "stopped-short" := by
+  rw [walkLoop_succ, hc, hs]; simp only [hk, if_true]
+
+theorem walkLoop_err {step : S → Res S} {cond : S → Bool} {stuck : S → S → Bool} {s : S} {e : String}
+    (hc : cond s = true) (hs : step s = .err e) (n : Nat) : walkLoop step cond stuck (n + 1) s = .err e := by
+  rw [walkLoop_succ, hc, hs]; rfl
+
+theorem walkLoop_panic {step : S → Res S} {cond : S → Bool} {stuck : S → S → Bool} {s : S} {e : String}
+    (hc : cond s = true) (hs : step s = .panic e) (n : Nat) : walkLoop step cond stuck (n + 1) s = .panic e := by
+  rw [walkLoop_succ, hc, hs]; rfl
+
+theorem walkLoopOld_exit {step : S → Res S} {cond : S → Bool} {s : S} (hc : cond s = false) (n : Nat) :
+    walkLoopOld step cond n s = .ok (some s) := by
+  cases n with
+  | zero => rw [walkLoopOld_zero, hc]; rfl
+  | succ n => rw [walkLoopOld_succ, hc]; rfl
+
+theorem walkLoopOld_step {step : S → Res S} {cond : S → Bool} {s s' : S} (hc : cond s = true)
+    (hs : step s = .ok s') (n : Nat) : walkLoopOld step cond (n + 1) s = walkLoopOld step cond n s' := by
+  rw [walkLoopOld_succ, hc, hs]; rfl
+
+theorem walkLoopOld_err {step : S → Res S} {cond : S → Bool} {s : S} {e : String}
+    (hc : cond s = true) (hs : step s = .err e) (n : Nat) : walkLoopOld step cond (n + 1) s = .err e := by
+  rw [walkLoopOld_succ, hc, hs]; rfl
+
+theorem walkLoopOld_panic {step : S → Res S} {cond : S → Bool} {s : S} {e : String}
+    (hc : cond s = true) (hs : step s = .panic e) (n : Nat) : walkLoopOld step cond (n + 1) s = .panic e := by
+  rw [walkLoopOld_succ, hc, hs]; rfl
+
+/-- the old loop is the new loop with a check that never fires -/
+theorem walkLoopOld_eq (step : S → Res S) (cond : S → Bool) (n : Nat) (s : S) :
+    walkLoopOld step cond n s = walkLoop step cond (fun _ _ => false) n s := by
+  induction n generalizing s with
+  | zero => rfl
+  | succ n ih =>
+    cases hc : cond s
+    · rw [walkLoopOld_exit hc, walkLoop_exit hc]
+    · cases hs : step s with
+      | ok s' => rw [walkLoopOld_step hc hs, walkLoop_step hc hs rfl]; exact ih s'
+      | err e => rw [walkLoopOld_err hc hs, walkLoop_err hc hs]
+      | panic e => rw [walkLoopOld_panic hc hs, walkLoop_panic hc hs]
+
+/-- no stuck pair is met in the first `n` iterations from `s` -/
+def NoStuckPair (step : S → Res S) (cond : S → Bool) (stuck : S → S → Bool) : Nat → S → Prop
+  | 0, _ => True
+  | n + 1, s => cond s = true → ∀ s', step s = .ok s' → stuck s s' = false ∧ NoStuckPair step cond stuck n s'
+
+/-- **The defect.**  `E a b`: "`b` is the same as `a` for the purposes of `step` and `cond`" (in the code: the
+    states differ in the clock, the step counter, the energy ledgers and the histories only).  If the state after a
+    step is `E`-the same as the state before it, and the loop condition holds, the OLD loop never exits: for EVERY
+    fuel it is still running.  (For `walk_internal`: a train at rest with target 0 outside the stopping window; that
+    such a state IS an `E`-fixed point of the real `step()` is what the harness checks on every detected case.) -/
+def C03_walk_old_diverges_statement : Prop :=
+  ∀ (S : Type) (step : S → Res S) (cond : S → Bool) (E : S → S → Prop),
+    (∀ a b, E a b → cond a = cond b) →                                              -- `cond` respects `E`
+    (∀ a a' b, E a b → step a = .ok a' → ∃ b', step b = .ok b' ∧ E a' b') →         -- `step` respects `E`
+    ∀ (s s' : S), cond s = true → step s = .ok s' → E s s' →
+      ∀ n, walkLoopOld step cond n s = .ok none
+
+theorem C03_walk_old_diverges : C03_walk_old_diverges_statement := by
+  intro S step cond E hc hs s s' hcs hss hE n
+  induction n generalizing s s' with
+  | zero => rw [walkLoopOld_zero, hcs]; rfl
+  | succ n ih =>
+    obtain ⟨s'', hs'', hE'⟩ := hs s s' s' hE hss
+    have hc' : cond s' = true := by rw [← hc s s' hE]; exact hcs
+    rw [walkLoopOld_step hcs hss]
+    exact ih s' s'' hc' hs'' hE'
+
+/-- the special case `E = (· = ·)`: a literal fixed point of `step` -/
+theorem C03_walk_old_diverges_fixed_point (step : S → Res S) (cond : S → Bool) (s : S)
+    (hc : cond s = true) (hs : step s = .ok s) : ∀ n, walkLoopOld step cond n s = .ok none :=
+  C03_walk_old_diverges S step cond (· = ·) (fun _ _ h => by rw [h])
+    (fun a a' b h ha => ⟨a', by rw [← h]; exact ha, rfl⟩) s s hc hs rfl
+
+/-- **The repair.**  Under the same hypotheses (those on `E` are not even needed) plus `stuck s s' = true`, the NEW
+    loop ends with the error after one step, for every fuel ≥ 1. -/
+def C03_walk_new_reports_stuck_statement : Prop :=
+  ∀ (S : Type) (step : S → Res S) (cond : S → Bool) (stuck : S → S → Bool) (s s' : S),
+    cond s = true → step s = .ok s' → stuck s s' = true →
+      ∀ n, walkLoop step cond stuck (n + 1) s = .err "stopped-short"
+
+theorem C03_walk_new_reports_stuck : C03_walk_new_reports_stuck_statement := by
+  intro S step cond stuck s s' hc hs hk n
+  exact walkLoop_stuck hc hs hk n
+
+/-- **The repair changes no run that used to end.**  The new loop exits at `t` within fuel `n` IFF the old loop
+    does and no stuck pair was met on the way: (→) every exit of the new loop is an exit of the old one at the same
+    state; (←) an exit of the old loop is kept unless the check fired before it. -/
+def C03_walk_new_refines_old_statement : Prop :=
+  ∀ (S : Type) (step : S → Res S) (cond : S → Bool) (stuck : S → S → Bool) (n : Nat) (s t : S),
+    walkLoop step cond stuck n s = .ok (some t) ↔
+      (walkLoopOld step cond n s = .ok (some t) ∧ NoStuckPair step cond stuck n s)
+
+theorem C03_walk_new_refines_old : C03_walk_new_refines_old_statement := by
+  intro S step cond stuck n
+  induction n with
+  | zero => intro s t; rw [walkLoop_zero, walkLoopOld_zero]; simp [NoStuckPair]
+  | succ n ih =>
+    intro s t
+    cases hc : cond s
+    · rw [walkLoop_exit hc, walkLoopOld_exit hc]
+      exact ⟨fun h => ⟨h, fun h' => by rw [hc] at h'; cases h'⟩, fun h => h.1⟩
+    · cases hs : step s with
+      | ok s' =>
+        cases hk : stuck s s'
+        · rw [walkLoop_step hc hs hk, walkLoopOld_step hc hs, ih s' t]
+          constructor
+          · rintro ⟨h1, h2⟩
+            refine ⟨h1, ?_⟩
+            intro _ s'' hs''
+            rw [hs] at hs''; cases hs''
+            exact ⟨hk, h2⟩
+          · rintro ⟨h1, h2⟩
+            exact ⟨h1, (h2 hc s' hs).2⟩
+        · rw [walkLoop_stuck hc hs hk]
+          constructor
+          · intro h; cases h
+          · rintro ⟨_, h2⟩
+            have := (h2 hc s' hs).1
+            rw [hk] at this; cases this
+      | err e =>
+        rw [walkLoop_err hc hs, walkLoopOld_err hc hs]
+        exact ⟨fun h => (by cases h), fun h => (by cases h.1)⟩
+      | panic e =>
+        rw [walkLoop_panic hc hs, walkLoopOld_panic hc hs]
+        exact ⟨fun h => (by cases h), fun h => (by cases h.1)⟩
+
+/-- what the new loop returns when the old one exits: the same exit, or the new error — never anything else -/
+theorem C03_walk_old_exit_new (step : S → Res S) (cond : S → Bool) (stuck : S → S → Bool) (n : Nat) (s t : S)
+    (h : walkLoopOld step cond n s = .ok (some t)) :
+    walkLoop step cond stuck n s = .ok (some t) ∨ walkLoop step cond stuck n s = .err "stopped-short" := by
+  induction n generalizing s with
+  | zero => left; rw [walkLoop_zero]; rw [walkLoopOld_zero] at h; exact h
+  | succ n ih =>
+    cases hc : cond s
+    · rw [walkLoopOld_exit hc] at h; rw [walkLoop_exit hc]; exact Or.inl h
+    · cases hs : step s with
+      | ok s' =>
+        rw [walkLoopOld_step hc hs] at h
+        cases hk : stuck s s'
+        · rw [walkLoop_step hc hs hk]; exact ih s' h
+        · rw [walkLoop_stuck hc hs hk]; exact Or.inr rfl
+      | err e => rw [walkLoopOld_err hc hs] at h; cases h
+      | panic e => rw [walkLoopOld_panic hc hs] at h; cases h
+
+/-- **A sound check changes NO ending run.**  If every pair on which the check fires (with the loop condition true)
+    is an `E`-fixed point of a `step` / `cond` that respect `E` — which is what makes the old loop diverge there —
+    then every exit of the old loop is an exit of the new loop, with no side condition. -/
+def C03_walk_sound_check_keeps_exits_statement : Prop :=
+  ∀ (S : Type) (step : S → Res S) (cond : S → Bool) (stuck : S → S → Bool) (E : S → S → Prop),
+    (∀ a b, E a b → cond a = cond b) →
+    (∀ a a' b, E a b → step a = .ok a' → ∃ b', step b = .ok b' ∧ E a' b') →
+    (∀ a a', cond a = true → step a = .ok a' → stuck a a' = true → E a a') →          -- the check is sound
+    ∀ (n : Nat) (s t : S), walkLoopOld step cond n s = .ok (some t) → walkLoop step cond stuck n s = .ok (some t)
+
+theorem C03_walk_sound_check_keeps_exits : C03_walk_sound_check_keeps_exits_statement := by
+  intro S step cond stuck E hc hs hsound n s t h
+  refine (C03_walk_new_refines_old S step cond stuck n s t).mpr ⟨h, ?_⟩
+  induction n generalizing s with
+  | zero => trivial
+  | succ n ih =>
+    intro hcs s' hss
+    cases hk : stuck s s'
+    · refine ⟨rfl, ih s' ?_⟩
+      rw [walkLoopOld_step hcs hss] at h; exact h
+    · exfalso
+      have := C03_walk_old_diverges S step cond E hc hs s s' hcs hss (hsound s s' hcs hss hk) (n + 1)
+      rw [this] at h; cases h
+
+/-- **`walk_exit` for the loops**: a state at which either loop is left falsifies the loop condition. -/
+def C03_walk_exit_new_statement : Prop :=
+  ∀ (S : Type) (step : S → Res S) (cond : S → Bool) (stuck : S → S → Bool) (n : Nat) (s t : S),
+    (walkLoop step cond stuck n s = .ok (some t) → cond t = false) ∧
+    (walkLoopOld step cond n s = .ok (some t) → cond t = false)
+
+theorem C03_walk_exit_new : C03_walk_exit_new_statement := by
+  intro S step cond stuck n s t
+  have hold : ∀ (n : Nat) (s : S), walkLoopOld step cond n s = .ok (some t) → cond t = false := by
+    intro n
+    induction n with
+    | zero =>
+      intro s h
+      cases hc : cond s
+      · rw [walkLoopOld_exit hc] at h; cases h; exact hc
+      · rw [walkLoopOld_zero, hc] at h; cases h
+    | succ n ih =>
+      intro s h
+      cases hc : cond s
+      · rw [walkLoopOld_exit hc] at h; cases h; exact hc
+      · cases hs : step s with
+        | ok s' => rw [walkLoopOld_step hc hs] at h; exact ih s' h
+        | err e => rw [walkLoopOld_err hc hs] at h; cases h
+        | panic e => rw [walkLoopOld_panic hc hs] at h; cases h
+  exact ⟨fun h => hold n s ((C03_walk_new_refines_old S step cond stuck n s t).mp h).1, hold n s⟩
+
+/-- more fuel does not change a run that has ended (exit, error or panic) -/
+theorem C03_walk_fuel_mono (step : S → Res S) (cond : S → Bool) (stuck : S → S → Bool) (n k : Nat) (s : S)
+    (h : walkLoop step cond stuck n s ≠ .ok none) :
+    walkLoop step cond stuck (n + k) s = walkLoop step cond stuck n s := by
+  induction n generalizing s with
+  | zero =>
+    cases hc : cond s
+    · rw [walkLoop_exit hc, walkLoop_exit hc]
+    · rw [walkLoop_zero, hc] at h; exact absurd rfl h
+  | succ n ih =>
+    rw [Nat.add_right_comm]
+    cases hc : cond s
+    · rw [walkLoop_exit hc, walkLoop_exit hc]
+    · cases hs : step s with
+      | ok s' =>
+        cases hk : stuck s s'
+        · rw [walkLoop_step hc hs hk n] at h
+          rw [walkLoop_step hc hs hk (n + k), walkLoop_step hc hs hk n]; exact ih s' h
+        · rw [walkLoop_stuck hc hs hk, walkLoop_stuck hc hs hk]
+      | err e => rw [walkLoop_err hc hs, walkLoop_err hc hs]
+      | panic e => rw [walkLoop_panic hc hs, walkLoop_panic hc hs]
+
+end WalkLoop
+
+/-! ### the instances with `walkCond` / `walkStuck` -/
+
+/-- the check of the repaired loop, clause by clause -/
+theorem walkStuck_iff (ft1000 offsetEnd speedPrev : α) (s : TrainState α) :
+    walkStuck ft1000 offsetEnd speedPrev s = true ↔
+      speedPrev = 0 ∧ s.r.speed = 0 ∧ s.k.speedTarget = 0 ∧ s.r.offset < offsetEnd - ft1000 := by
+  unfold walkStuck
+  simp only [Bool.and_eq_true, eqb_iff, decide_eq_true_iff, and_assoc]
+
+/-- **A stuck state is never an exit state**: wherever the new check fires, the loop condition holds of the state
+    after the step — the old loop would have gone on from there (so the check can never replace an `Ok(())`). -/
+def C03_stuck_implies_cond_statement : Prop :=
+  ∀ (ft1000 offsetEnd speedPrev : α) (s : TrainState α),
+    walkStuck ft1000 offsetEnd speedPrev s = true → walkCond ft1000 offsetEnd s = true
+
+theorem C03_stuck_implies_cond : C03_stuck_implies_cond_statement (α := α) := by
+  intro ft1000 offsetEnd speedPrev s h
+  obtain ⟨_, _, _, h4⟩ := (walkStuck_iff ft1000 offsetEnd speedPrev s).mp h
+  unfold walkCond
+  rw [Bool.or_eq_true, decide_eq_true_iff]
+  exact Or.inl h4
+
+/-- **`walk_exit` for `walk_internal` as a whole** (old and new): `Ok(())` is returned only with the train at rest
+    inside the last 1000 ft or at/after the end of its path. -/
+def C03_slWalk_exit_statement : Prop :=
+  ∀ (S : Type) (ft1000 offsetEnd : α) (st : S → TrainState α) (step : S → Res S) (n : Nat) (s t : S),
+    (slWalk ft1000 offsetEnd st step n s = .ok (some t) ∨ slWalkOld ft1000 offsetEnd st step n s = .ok (some t)) →
+      (offsetEnd - ft1000 ≤ (st t).r.offset) ∧ (offsetEnd ≤ (st t).r.offset ∨ (st t).r.speed = 0)
+
+theorem C03_slWalk_exit : C03_slWalk_exit_statement (α := α) := by
+  intro S ft1000 offsetEnd st step n s t h
+  apply (C03_walk_exit ft1000 offsetEnd (st t)).mp
+  have := C03_walk_exit_new S step (fun x => walkCond ft1000 offsetEnd (st x))
+    (fun a b => walkStuck ft1000 offsetEnd (st a).r.speed (st b)) n s t
+  rcases h with h | h
+  · exact this.1 h
+  · exact this.2 h
+
+/-- the repaired `walk_internal` reports a train that stood still for a step with target 0 before the window -/
+theorem C03_slWalk_reports_stuck {S : Type} (ft1000 offsetEnd : α) (st : S → TrainState α) (step : S → Res S) (s s' : S)
+    (hs : step s = .ok s') (h0 : (st s).r.speed = 0) (h1 : (st s').r.speed = 0) (h2 : (st s').k.speedTarget = 0)
+    (h3 : (st s').r.offset < offsetEnd - ft1000)
+    (hc : walkCond ft1000 offsetEnd (st s) = true) :                 -- the loop was entered
+    ∀ n, slWalk ft1000 offsetEnd st step (n + 1) s = .err "stopped-short" :=
+  C03_walk_new_reports_stuck S step _ _ s s' hc hs ((walkStuck_iff _ _ _ _).mpr ⟨h0, h1, h2, h3⟩)
+
+/-- the unrepaired `walk_internal` never returns from such a state, provided `step` respects an equivalence that
+    fixes the position and the speed of the train (`walkCond` reads nothing else) -/
+theorem C03_slWalkOld_diverges {S : Type} (ft1000 offsetEnd : α) (st : S → TrainState α) (step : S → Res S)
+    (E : S → S → Prop)
+    (hE : ∀ a b, E a b → (st a).r.offset = (st b).r.offset ∧ (st a).r.speed = (st b).r.speed)
+    (hstep : ∀ a a' b, E a b → step a = .ok a' → ∃ b', step b = .ok b' ∧ E a' b')
+    (s s' : S) (hc : walkCond ft1000 offsetEnd (st s) = true) (hs : step s = .ok s') (hss : E s s') :
+    ∀ n, slWalkOld ft1000 offsetEnd st step n s = .ok none :=
+  C03_walk_old_diverges S step _ E
+    (fun a b h => by obtain ⟨h1, h2⟩ := hE a b h; unfold walkCond; rw [h1, h2]) hstep s s' hc hs hss
+
+/-! ### non-vacuity: a concrete stuck state and two toy `step`s over `ℚ` -/
+
+namespace Ex
+/-- at rest with target 0 at 768 m of a path that ends at 1309 m (the window starts at 1309 − 304.8 = 1004.2 m) -/
+def sStuck : TrainState ℚ := ⟨resOf 768 0 0, { kinQ with speedTarget := 0 }⟩
+/-- 5 m/s at the same place -/
+def sMove : TrainState ℚ := ⟨resOf 768 5 0, kinQ⟩
+/-- a train held where it is: only the clock moves (so `stand s ≠ s`: the equivalence `E` is needed) -/
+def stand (s : TrainState ℚ) : Res (TrainState ℚ) := .ok { s with k := { s.k with time := s.k.time + 1 } }
+/-- 100 m per step; comes to rest exactly at the end of the path -/
+def roll (s : TrainState ℚ) : Res (TrainState ℚ) :=
+  if s.r.offset + 100 < 1309 then .ok { s with r := { s.r with offset := s.r.offset + 100 } }
+  else .ok { s with r := { s.r with offset := 1309, speed := 0 } }
+/-- same resistance-part (position, speed, …) and same target: all that `walkCond` / `walkStuck` / `stand` read -/
+def sameTrain (a b : TrainState ℚ) : Prop := a.r = b.r ∧ a.k.speedTarget = b.k.speedTarget
+/-- the check of `slWalk` on bare train states -/
+def stuckQ (a b : TrainState ℚ) : Bool := walkStuck (1524/5) 1309 a.r.speed b
+/-- did the loop exit, at a state satisfying `p` -/
+def exitAnd (p : TrainState ℚ → Bool) : Res (Option (TrainState ℚ)) → Bool
+  | .ok (some t) => p t
+  | _ => false
+theorem exitAnd_exists {p : TrainState ℚ → Bool} {r : Res (Option (TrainState ℚ))} (h : exitAnd p r = true) :
+    ∃ t, r = .ok (some t) ∧ p t = true := by
+  cases r with
+  | ok o => cases o with
+    | none => simp [exitAnd] at h
+    | some t => exact ⟨t, rfl, h⟩
+  | err e => simp [exitAnd] at h
+  | panic e => simp [exitAnd] at h
+end Ex
+
+/-- the concrete stuck state: the check fires, the loop condition holds (`C03_stuck_implies_cond`), and with any one
+    clause of the check falsified it does not fire -/
+example : walkStuck (1524/5 : ℚ) 1309 0 Ex.sStuck = true ∧ walkCond (1524/5 : ℚ) 1309 Ex.sStuck = true ∧
+    walkStuck (1524/5 : ℚ) 1309 5 Ex.sStuck = false ∧ walkStuck (1524/5 : ℚ) 1309 0 Ex.sMove = false ∧
+    walkStuck (1524/5 : ℚ) 1309 0 ⟨Ex.resOf 768 0 0, Ex.kinQ⟩ = false ∧
+    walkStuck (1524/5 : ℚ) 1309 0 ⟨Ex.resOf 1005 0 0, { Ex.kinQ with speedTarget := 0 }⟩ = false := by
+  decide +kernel
+
+/-- non-vacuity of `C03_walk_old_diverges` (ALL hypotheses, `E = sameTrain`, `step = stand` which is not the
+    identity): the old loop is still running after any number of steps … -/
+example : ∀ n, walkLoopOld Ex.stand (walkCond (1524/5 : ℚ) 1309) n Ex.sStuck = .ok none := by
+  refine C03_walk_old_diverges _ Ex.stand _ Ex.sameTrain ?_ ?_ Ex.sStuck
+    { Ex.sStuck with k := { Ex.sStuck.k with time := Ex.sStuck.k.time + 1 } } (by decide +kernel) rfl ⟨rfl, rfl⟩
+  · rintro a b ⟨h, _⟩; unfold walkCond; rw [h]
+  · rintro a a' b ⟨h1, h2⟩ ha
+    refine ⟨_, rfl, ?_⟩
+    simp only [Ex.stand, Res.ok.injEq] at ha
+    subst ha
+    exact ⟨h1, h2⟩
+
+/-- … (evaluated: 40 steps) while the new loop ends with the error at the first step
+    (`C03_walk_new_reports_stuck`), whatever the fuel ≥ 1 -/
+example : (match walkLoopOld Ex.stand (walkCond (1524/5 : ℚ) 1309) 40 Ex.sStuck with | .ok none => true | _ => false) = true ∧
+    (match walkLoop Ex.stand (walkCond (1524/5 : ℚ) 1309) Ex.stuckQ 40 Ex.sStuck with
+      | .err t => t == "stopped-short" | _ => false) = true := by decide +kernel
+
+example : ∀ n, walkLoop Ex.stand (walkCond (1524/5 : ℚ) 1309) Ex.stuckQ (n + 1) Ex.sStuck = .err "stopped-short" :=
+  C03_walk_new_reports_stuck _ Ex.stand _ Ex.stuckQ Ex.sStuck _ (by decide +kernel) rfl (by decide +kernel)
+
+/-- `slWalk` is that loop -/
+example : ∀ n, slWalk (1524/5 : ℚ) 1309 id Ex.stand (n + 1) Ex.sStuck = .err "stopped-short" :=
+  C03_slWalk_reports_stuck (1524/5 : ℚ) 1309 id Ex.stand Ex.sStuck _ rfl (by decide +kernel) (by decide +kernel)
+    (by decide +kernel) (by decide +kernel) (by decide +kernel)
+
+/-- non-vacuity of `C03_walk_new_refines_old` / `C03_walk_exit_new` / `C03_slWalk_exit`: a run that ENDS (6 steps of
+    100 m from 768 m at 5 m/s, at rest at the end 1309) ends in the same state under both loops, no stuck pair is
+    met, the loop condition is false there; with 5 steps of fuel both are still running -/
+example : ∃ t, walkLoop Ex.roll (walkCond (1524/5 : ℚ) 1309) Ex.stuckQ 10 Ex.sMove = .ok (some t) ∧
+    walkLoopOld Ex.roll (walkCond (1524/5 : ℚ) 1309) 10 Ex.sMove = .ok (some t) ∧
+    NoStuckPair Ex.roll (walkCond (1524/5 : ℚ) 1309) Ex.stuckQ 10 Ex.sMove ∧
+    t.r.offset = 1309 ∧ t.r.speed = 0 ∧ walkCond (1524/5 : ℚ) 1309 t = false := by
+  obtain ⟨t, ht, hp⟩ := Ex.exitAnd_exists
+    (r := walkLoop Ex.roll (walkCond (1524/5 : ℚ) 1309) Ex.stuckQ 10 Ex.sMove)
+    (p := fun t => decide (t.r.offset = 1309 ∧ t.r.speed = 0)) (by decide +kernel)
+  have hp' := of_decide_eq_true hp
+  obtain ⟨ho, hn⟩ := (C03_walk_new_refines_old _ _ _ _ _ _ _).mp ht
+  exact ⟨t, ht, ho, hn, hp'.1, hp'.2, (C03_walk_exit_new _ _ _ _ _ _ _).1 ht⟩
+
+example : (match walkLoop Ex.roll (walkCond (1524/5 : ℚ) 1309) Ex.stuckQ 5 Ex.sMove with | .ok none => true | _ => false) = true ∧
+    (match walkLoop Ex.roll (walkCond (1524/5 : ℚ) 1309) Ex.stuckQ 6 Ex.sMove with | .ok (some _) => true | _ => false) = true := by
+  decide +kernel
+
+/-- a run that first moves and THEN gets stuck (`roll` for 2 steps to 968 m, then held): the old loop exhausts any
+    fuel, the new loop reports it at the first step that starts at rest -/
+example :
+    let step := fun (s : TrainState ℚ) => if s.r.offset < 968 then Ex.roll s else
+      Ex.stand { s with r := { s.r with speed := 0 }, k := { s.k with speedTarget := 0 } }
+    (match walkLoopOld step (walkCond (1524/5 : ℚ) 1309) 30 Ex.sMove with | .ok none => true | _ => false) = true ∧
+    (match walkLoop step (walkCond (1524/5 : ℚ) 1309) Ex.stuckQ 3 Ex.sMove with | .ok none => true | _ => false) = true ∧
+    (match walkLoop step (walkCond (1524/5 : ℚ) 1309) Ex.stuckQ 4 Ex.sMove with
+      | .err t => t == "stopped-short" | _ => false) = true := by
+  decide +kernel
 /-! ## §6  Power bounds of an accepted step -/
 
 /-- **Power bounds.**  The stored wheel power lies in `[−pwr_neg_max, pwr_pos_max]` (both limits
@@ -1241,7 +1667,11 @@ theorem C03_recalc_panic_counterexample :
     `lowClip ≤ fTarget` of `C03_step_le_limit` holds along a whole run, is not proved — and is false
     on real inputs (the assertion is reachable in the Rust code).
   * Termination of `walk_internal` and `offset ≤ offset_end` at exit (`C03_walk_exit` shows the loop
-    also exits with the train past the end and still moving).
+    also exits with the train past the end and still moving).  §5b proves the repaired loop ends at the first stuck
+    pair and changes no run that ended before; that the REAL `step()` leaves a stuck state unchanged (position, speed,
+    target) — the hypothesis `E s s'` of `C03_walk_old_diverges` — is checked by the harness on every detected case
+    (`stopped_short_is_fixed_point`), not proved of `slStep`; and nothing bounds the number of steps of a train that
+    keeps moving.
   * For `recalc`: that every point's `limit` is at most the POSTED limit at the point's position is
     FALSE in the model (§8), so "not above the limit in force at its position (posted restrictions…)"
     does not follow from the braking-point limit even where that one is respected; termination of the
